@@ -860,6 +860,9 @@ impl DpRig {
 pub struct History {
     pub acts: Vec<(UserAct, Act, i64, bool)>,
     pub clean_rounds: usize,
+    /// which message cycles of the fault-free continuation are granted as high-priority-only (the
+    /// token arrived late): 0 none, 1 all of them, k >= 2 every k-th
+    pub clean_hp: u8,
 }
 
 pub fn gen_history(t: &mut Tape, cfg: &DpCfg, max_fault_rounds: usize, rich: bool) -> History {
@@ -880,5 +883,11 @@ pub fn gen_history(t: &mut Tape, cfg: &DpCfg, max_fault_rounds: usize, rich: boo
         let hp = t.chance(1, 10);
         acts.push((user, act, dt, hp));
     }
-    History { acts, clean_rounds: 0 }
+    // (generated last: an exhausted tape gives 'none')
+    let clean_hp = match t.below(4) {
+        0 | 1 => 0,
+        2 => 1,
+        _ => 2 + t.below(5) as u8,
+    };
+    History { acts, clean_rounds: 0, clean_hp }
 }
